@@ -392,11 +392,12 @@ def branch_update_lemma(task, tier, seed):
             parent, *_ = mk_symbols(st, "parent", level=sym("parent_level", "int"))
         selfo, refs, loads, stores = mk_symbols(st, "self", parent, level)
         branches = []
+        hyps = []  # the invariant of self and of every branch: hypotheses of every obligation (not needed to run the body)
         for i in range(2):
             b, br, bl, bs = mk_symbols(st, f"b{i}", parent, level)
             branches.append(b)
-            st.assume(*inv_terms(st, br, bl, bs, level))
-        st.assume(*inv_terms(st, refs, loads, stores, level))
+            hyps += inv_terms(st, br, bl, bs, level)
+        hyps += inv_terms(st, refs, loads, stores, level)
         obligations = []
         seen_loop = []
 
@@ -463,7 +464,7 @@ def branch_update_lemma(task, tier, seed):
             obligations.append(("inv_restored[1]", list(s.pc), z3.ForAll([n_], z3.Implies(z3.Select(r_.dom, n_), z3.Select(l_.dom, z3.Select(r_.val, n_)))), 0))
         by = {}
         for nm, pc, cond, ln in obligations:
-            r = check_sat(pc + [z3.Not(cond)], timeout, seed)
+            r = check_sat(hyps + pc + [z3.Not(cond)], timeout, seed)
             if r.status == "unsat":
                 st_ = "discharged"
             elif r.status == "sat":
@@ -481,7 +482,7 @@ def branch_update_lemma(task, tier, seed):
                           "vc", witness={"function": "Symbols.branch_update", "lemma": nm} if status == "refuted" else None))
         # non-vacuity: the loop body is reachable
         reach = [pc for nm, pc, cond, ln in obligations if nm == "existing_key"]
-        if not reach or check_sat(reach[0], 1500, seed, use_cvc5=False).status == "unsat":
+        if not reach or check_sat(hyps + reach[0], 1500, seed, use_cvc5=False).status == "unsat":
             rs.append(Res(f"C30.lemma.branch_update.{tag}.nonvacuous", "error", "z3", 0, "set loop body unreachable under the assumed invariant", "vc"))
     return rs
 
@@ -505,7 +506,7 @@ def symbols_inv(method):
             if with_parent:
                 parent, *_ = mk_symbols(st, "parent", level=sym("parent_level", "int"))
             selfo, refs, loads, stores = mk_symbols(st, "self", parent, level)
-            st.assume(*inv_terms(st, refs, loads, stores, level))
+            hyps = inv_terms(st, refs, loads, stores, level)
             name = sym("name", "obj")
             args = [selfo, name]
             if method == "_define_ref":
@@ -523,7 +524,7 @@ def symbols_inv(method):
                     continue
                 n_paths += 1
                 for j, t in enumerate(inv_terms(s, refs, loads, stores, level)):
-                    r = check_sat(list(s.pc) + [z3.Not(t)], timeout, seed)
+                    r = check_sat(hyps + list(s.pc) + [z3.Not(t)], timeout, seed)
                     secs += r.seconds
                     if r.status == "sat":
                         status, bad = "refuted", f"invariant clause {j} broken"
@@ -534,6 +535,51 @@ def symbols_inv(method):
             rs.append(Res(f"C30.lemma.symbols_inv.{method}.{tag}", status, "z3", secs, bad or f"{n_paths} path(s)", "vc",
                           witness={"function": f"Symbols.{method}"} if status == "refuted" else None))
         return rs
+    return fn
+
+
+LEMMA_FUNCS = {}
+
+
+def _lemma_entry(name, tier, seed, offset):
+    for _ in range(offset):
+        fresh_name("offset")
+    fn = LEMMA_FUNCS[name]
+    return fn(FnTask("C30", name, None), tier, seed)
+
+
+def hard_timeout(name, seconds=90, attempts=3):
+    """z3 does not always honour its own timeout on quantified string/array goals: the lemma runs in a child
+    process that is killed after `seconds`; it is retried with shifted fresh-name counters (another search order);
+    if every attempt is killed the obligation is reported undecided, never discharged"""
+    def fn(task, tier, seed):
+        root = os.path.dirname(os.path.dirname(os.path.abspath(__file__)))
+        import jinja2
+        src_root = os.path.dirname(os.path.dirname(os.path.abspath(jinja2.__file__)))
+        env = dict(os.environ)
+        env["PYTHONPATH"] = os.pathsep.join([root, src_root])
+        code = ("import sys, json; from contracts import c30; "
+                "rs = c30._lemma_entry(sys.argv[1], sys.argv[2], int(sys.argv[3]), int(sys.argv[4])); "
+                "from pyvc import extract; "
+                "print(json.dumps({'results': [r.to_json() for r in rs], 'extracted': list(extract.EXTRACTED.values())}, default=str))")
+        last = ""
+        for k in range(attempts):
+            try:
+                p = subprocess.run([sys.executable, "-c", code, name, tier, str(seed), str(k * 211)], capture_output=True, text=True, env=env, timeout=seconds)
+            except subprocess.TimeoutExpired:
+                last = f"attempt {k + 1}: solver did not return within {seconds}s (killed)"
+                continue
+            if p.returncode != 0:
+                last = p.stderr[-600:]
+                continue
+            data = json.loads(p.stdout.strip().splitlines()[-1])
+            for e in data["extracted"]:
+                extract.EXTRACTED.setdefault(e["qualname"], e)
+            out = []
+            for j in data["results"]:
+                out.append(Res(j["name"], j["status"], j.get("backend", ""), j.get("seconds", 0.0), j.get("detail", ""), j.get("kind", "vc"), j.get("witness")))
+            return out
+        return [Res(f"{name}.solver", "unknown", "z3", 0, last, "vc")]
     return fn
 
 
@@ -708,6 +754,11 @@ def probe_replay(w=None):
 
 # ------------------------------------------------------------------------------------------ tasks
 
+LEMMA_FUNCS["C30.lemma.branch_update"] = branch_update_lemma
+for _m in ("_define_ref", "store", "declare_parameter", "load"):
+    LEMMA_FUNCS[f"C30.lemma.symbols_inv.{_m}"] = symbols_inv(_m)
+
+
 def _keyed(t, k):
     t.finding_key = k
     return t
@@ -720,8 +771,8 @@ def native_key(res):
 TASKS = (
     [fuc_task(q) for q in FUC]
     + [FnTask("C30", "C30.extra", extras, "path", replay_seeds),
-       FnTask("C30", "C30.lemma.branch_update", branch_update_lemma, "vc", replay_seeds)]
-    + [FnTask("C30", f"C30.lemma.symbols_inv.{m}", symbols_inv(m), "vc", replay_seeds) for m in ("_define_ref", "store", "declare_parameter", "load")]
+       FnTask("C30", "C30.lemma.branch_update", hard_timeout("C30.lemma.branch_update"), "vc", replay_seeds)]
+    + [FnTask("C30", f"C30.lemma.symbols_inv.{m}", hard_timeout(f"C30.lemma.symbols_inv.{m}"), "vc", replay_seeds) for m in ("_define_ref", "store", "declare_parameter", "load")]
     + [FnTask("C30", "C30.lemma.tables", symbols_tables, "table", replay_seeds),
        FnTask("C30", "C30.typing.probe", typing_probe, "bounded", probe_replay),
        _keyed(FnTask("C30", "C30.native.hashseed", hashseed_standin, "bounded", replay_seeds), native_key)]
